@@ -151,6 +151,49 @@ def rule_set_address(ctx, repo):
               "array resizing / view binding / name allocation out of order", f.W())
 
 
+def rule_resize(ctx, repo):
+    """second addressing phase: the global vectors are EXTENDED (leading values, i.e. the power-flow solution, are kept) and each
+    vector is sized by its own counter."""
+    r = F.method(repo, "DAE", "resize_arrays", DAE)
+    want = {"x": "n", "y": "m", "f": "n", "g": "m", "h": "p", "i": "q", "Tf": "n"}
+    got = {}
+    for n in walk_noscope(r.fn):
+        if isinstance(n, ast.Assign):
+            m = Q.match("self.$a = self._extend_or_slice(self.$a, self.$c)", n) or Q.match("self.$a = self._extend_or_slice(self.$a, self.$c, fill_func=$f)", n)
+            if m:
+                got[m["a"]] = m["c"]
+    bad = {k: got.get(k) for k, v in want.items() if got.get(k) != v}
+    ctx.check(not bad, "C10.resize", "DAE.resize_arrays", "each vector resized with its own counter (x,f,Tf->n; y,g->m; h->p; i->q)",
+              "vector/counter pairing in resize_arrays changed: %s" % bad, r.W())
+    ok = Q.has("self.Tf = self._extend_or_slice(self.Tf, self.n, fill_func=np.ones)", r.fn)
+    ctx.check(ok, "C10.resize", "DAE.resize_arrays/Tf", "new time-constant slots default to 1 (identity mass matrix)",
+              "new Tf slots are no longer filled with ones", r.W())
+    e = F.method(repo, "DAE", "_extend_or_slice", DAE)
+    a = [x.arg for x in e.fn.args.args]
+    ok = Q.has("%s = np.append(%s, %s(%s - len(%s)))" % (a[1], a[1], a[3], a[2], a[1]), e.fn) and Q.has("%s = %s[0:%s]" % (a[1], a[1], a[2]), e.fn)
+    t = e.tests(lambda c: c.replace(" ", "") == "%s>len(%s)" % (a[2], a[1]))
+    ctx.check(ok and bool(t), "C10.resize", "DAE._extend_or_slice", "growth appends (existing leading values kept), shrink slices from 0",
+              "array growth no longer preserves the existing leading values (the power-flow solution would be lost at TDS start)", e.W())
+    n_ = F.method(repo, "DAE", "alloc_or_extend_names", DAE)
+    spec = None
+    for x in walk_noscope(n_.fn):
+        if isinstance(x, ast.Assign) and dotted(x.targets[0]) == "specs" and isinstance(x.value, ast.Dict):
+            spec = {k.value: src(v) for k, v in zip(x.value.keys, x.value.values)}
+    wantn = {"x_name": "self.n", "y_name": "self.m", "h_name": "self.p", "i_name": "self.q", "x_tex_name": "self.n", "y_tex_name": "self.m"}
+    ctx.check(spec is not None and all(spec.get(k) == v for k, v in wantn.items()), "C10.resize", "DAE.alloc_or_extend_names",
+              "name lists sized by the counter of their vector; existing names kept (extend)", "name list / counter pairing changed: %s" % spec, n_.W())
+    sv = F.method(repo, "System", "set_var_arrays", SYSTEM)
+    ok = sum(1 for lp, e2 in Q.loops(sv.fn, "$m.cache.$c.values()", "$v") if e2["c"] in ("vars_int", "vars_ext")
+             and Q.has("$v.set_arrays(self.dae, inplace=inplace, alloc=alloc)", lp, e2)) == 2
+    ctx.check(ok, "C10.resize", "System.set_var_arrays", "every internal and external variable re-bound to the (possibly new) DAE arrays",
+              "not all variables are re-bound after the vectors were resized (stale views)", sv.W())
+    iv = F.method(repo, "BaseVar", "_set_arrays_inplace", VAR)
+    ok = Q.has("$s = slice(self.a[0], self.a[-1] + 1)", iv.fn) and Q.has("self.v = dae.__dict__[self.v_code][$s]", iv.fn) and \
+        Q.has("self.e = dae.__dict__[self.e_code][$s]", iv.fn)
+    ctx.check(ok, "C10.resize", "BaseVar._set_arrays_inplace", "in-place view = dae.<code>[a[0] : a[-1]+1] of the variable's own vector",
+              "in-place views no longer slice the variable's own address range", iv.W())
+
+
 def rule_links(ctx, repo):
     # ExtVar.link_external
     f = F.method(repo, "ExtVar", "link_external", VAR)
@@ -244,6 +287,8 @@ def run(ctx):
     ctx.rule("C10.tiling", "affine identities: the blocks cut by DAE.request_address tile [begin, begin+ndevice*nvar) in both "
              "layouts; counter advanced; array/counter table", 4)
     ctx.rule("C10.alloc", "set_address: i-th block to i-th variable; arange(C, C+k) paired with C += k; guards agree; finalise order", 4)
+    ctx.rule("C10.resize", "second addressing phase: vectors extended with their own counters keeping leading values; names extended; "
+             "views re-bound", 6)
     ctx.rule("C10.link", "external variable / parameter / service links data-depend on idx2uid(indexer) or group.get(idx=indexer); "
              "type mismatch raises", 6)
     ctx.rule("C10.names", "slot names pair idx.v[k] with a[k]", 2)
@@ -252,6 +297,7 @@ def run(ctx):
     repo = Repo()
     rule_tiling(ctx, repo)
     rule_set_address(ctx, repo)
+    rule_resize(ctx, repo)
     rule_links(ctx, repo)
     rule_names(ctx, repo)
     rule_one_reader(ctx, repo)
